@@ -25,6 +25,7 @@ def dispatch (line : String) : String :=
     else if t == "refeval" then refLine toks
     else if t == "pegtrace" || t == "pegleaks" then pegLine toks
     else if t == "matchrest" then matchRestLine toks
+    else if t == "stlist" then stListLine toks
     else "bad-op"
 
 partial def loop (hin : IO.FS.Stream) (hout : IO.FS.Stream) : IO Unit := do
